@@ -855,7 +855,8 @@ impl World {
     pub fn step(&mut self, op: &Op) -> Obs {
         match op {
             Op::NewBuilder { b, proto, layer, now_ns } => {
-                env::set_clock(now_ns.0, &[]);
+                // every further clock read during construction is served 1 ns later
+                env::set_clock(now_ns.0, &[1, 1, 1, 1, 1, 1, 1, 1]);
                 let made = env::guarded(|| make_builder(*proto, *layer));
                 let reads = reads_obs(env::take_clock_reads());
                 match made {
